@@ -60,3 +60,31 @@ PROPS['C26'] = dict(
     technique='translation validation of the interpreter adapter against the machine adapter on generated programs; Coq lemma that the zero-posting projection is sound; machine side = Sem by differential run',
     level_text='Machine runtime: executable Coq semantics proved (C22, C28) and tied to the real compiler/VM. Interpreter runtime: compared with the machine runtime on thousands of generated scripts of the shared subset per run '
                '(no model of the third-party interpreter). Known disagreements on `kept` are reported as known findings.')
+
+PROPS['C27'] = dict(
+    target='Props/C27', theorems=['C27_no_panic_partial', 'C27_statements_no_panic', 'C27_no_partial', 'C27_refuted_nil_balance'],
+    ties=[ns_tie(['C27'], quick=3000, name='TIE-C ns'),
+          dict(name='TIE-C ns adapters (no partial result)', vh='ns', model='ns', n=dict(quick=1500, thorough=50000), args=dict(all=['-c26', '1']), kinds=['C27']),
+          dict(name='EXPLORE nsfront (unmodelled ANTLR front end)', vh='nsfront', model=None, n=dict(quick=6000, thorough=600000), kinds=['C27'])],
+    rule=NS_RULE + '; nsfront (exploration of the unmodelled front end, labelled as such): per run 1/3 byte/token-level mutants of generated programs, 1/3 random token sequences, 1/3 arbitrary byte strings '
+         'into compiler.Compile and, when they compile, into the machine; only panics and >5 s hangs are reported; the adapters tie also checks that an error never comes with a non-nil result',
+    trusted=NS_TRUST, level_note=NS_NOTE,
+    explanation='Sem.run is a total function with an explicit Panic outcome (nil *MonetaryInt dereferences). Proved: programs without balance() variables never panic, for all variables/balances/metadata (C27_no_panic_partial), and '
+                'no statement sequence panics in an environment without nil amounts (C27_statements_no_panic); an error outcome carries no postings (C27_no_partial; on the Go side the monitor checks result == nil on error for both adapters). '
+                'REFUTED (C27_refuted_nil_balance, known finding KF-C27-nil-balance-panic, replayed on the real VM): two balance() variables on one account leave a nil amount and the VM panics. '
+                'Gaps: panics of the bytecode VM that an AST-level semantics cannot express (pop[T] type assertion, BUMP index, "stack not empty") are covered only by the differential run under recover(), not by a theorem (no Vm.v/Compile.v); '
+                'the byte-string front end is exploration only.',
+    technique='Coq proof (no-Panic by mutual structural induction over the AST) + refutation witness + differential run under recover()/timeout + front-end exploration',
+    level_text='Partial proof from the AST down: no panic for every program without balance() variables (any inputs) and for every statement sequence once variables hold no nil amount; full statement refuted by a 2-line script that '
+               'panics the real VM (known finding). Stack-discipline panics of the bytecode VM are only tested (thousands of generated programs per run under recover()), and the ANTLR front end is explored with mutants/byte strings.')
+
+PROPS['C23'] = dict(
+    target='Props/C23', theorems=['C23_partial_withdraw_all', 'C23_untracked_is_error'],
+    ties=[ns_tie(['C23'], quick=5000, name='TIE-C ns')],
+    rule=NS_RULE + '; monitor: for every bounded source occurrence (account value, asset) that is not world and not declared unbounded anywhere in the program: initial + net postings >= min(initial, -max declared bound)',
+    trusted=NS_TRUST, level_note=NS_NOTE,
+    explanation='PARTIAL. Proved: the withdrawAll primitive (OP_TAKE_ALL) hands out exactly max(0, balance + bound) as one part and leaves the tracked balance >= min(balance, -bound); an untracked bounded source is an error. '
+                'The whole-program invariant (preservation through repay/credit/TAKE_ALWAYS on other accounts, and tracked = initial + postings - save) is NOT yet a theorem: it is checked on every generated program by the '
+                'independent monitor [ns-overdrawn] and by model = implementation on the tracked balances. No counterexample in >10^5 programs.',
+    technique='Coq lemma on the balance primitive + differential run + independent balance-bound monitor',
+    level_text='Partial: machine-checked bound for the primitive all bounded sources use; the program-level statement is validated by correspondence and monitor only (stated gap).')
